@@ -267,41 +267,28 @@ impl TlsDemux {
                 None,
             )
         } else if let Some(h) = self.reverse_proxy_hosts.get(&sni) {
-            match parsed_alpn
-                .iter()
-                .filter(|x| matches!(x, Protocol::Http1 | Protocol::Http3))
-                .max()
-                .cloned()
-            {
-                Some(x) => (x, Channel::ReverseProxy, h, None),
-                None if alpn.clone().peekable().peek().is_none() => {
-                    (DEFAULT_PROTOCOL, Channel::ReverseProxy, h, None)
-                }
-                None => {
-                    return Err(format!(
-                        "Unexpected ALPN on reverse proxy connection {:?}",
-                        alpn.map(utils::hex_dump).collect::<Vec<_>>()
-                    ))
-                }
-            }
+            // only the protocols the listener enables can be served, whatever the channel
+            (
+                self.select_tunnel_channel_protocol(
+                    parsed_alpn
+                        .iter()
+                        .filter(|x| matches!(x, Protocol::Http1 | Protocol::Http3)),
+                    alpn,
+                )?,
+                Channel::ReverseProxy,
+                h,
+                None,
+            )
         } else if let Some(h) = self.ping_hosts.get(&sni) {
             (
-                parsed_alpn
-                    .iter()
-                    .max()
-                    .cloned()
-                    .unwrap_or(DEFAULT_PROTOCOL),
+                self.select_tunnel_channel_protocol(parsed_alpn.iter(), alpn)?,
                 Channel::Ping,
                 h,
                 None,
             )
         } else if let Some(h) = self.speedtest_hosts.get(&sni) {
             (
-                parsed_alpn
-                    .iter()
-                    .max()
-                    .cloned()
-                    .unwrap_or(DEFAULT_PROTOCOL),
+                self.select_tunnel_channel_protocol(parsed_alpn.iter(), alpn)?,
                 Channel::Speedtest,
                 h,
                 None,
